@@ -1,6 +1,8 @@
 package scanner
 
 import (
+	"fmt"
+
 	"github.com/jsightapi/jsight-schema-core/bytes"
 	"github.com/jsightapi/jsight-schema-core/fs"
 	"github.com/jsightapi/jsight-schema-core/kit"
@@ -23,7 +25,14 @@ func stateJSchema(s *Scanner, _ byte) *jerr.JApiError {
 	return nil
 }
 
-func (s *Scanner) readSchemaWithJsc() (uint, *jerr.JApiError) {
+func (s *Scanner) readSchemaWithJsc() (l uint, je *jerr.JApiError) {
+	defer func() {
+		// The schema scanner of jsight-schema-core may panic on a malformed tail.
+		if r := recover(); r != nil {
+			l, je = 0, s.japiErrorBasic(fmt.Sprintf("invalid schema: %v", r))
+		}
+	}()
+
 	fc := s.file.Content()
 	file := fs.NewFile("", fc.Sub(s.curIndex, fc.LenIndex()))
 
